@@ -142,6 +142,8 @@ class Machine:
         s.events = []
         s.choice_ctr = {}
         s.fork_int_selects = False
+        s.concretize = False
+        s.enum_values = None
         s.choice_log = []
 
     # ------------------------------------------------------------------ memory
@@ -555,6 +557,26 @@ class Machine:
         c = s.choice_ctr.get(name, 0)
         s.choice_ctr[name] = c + 1
         s.choice_log.append((f'{name}#{c}', v))
+        return v
+
+    def concretize_int(s, t):
+        """KLEE-style concretisation of a symbolic integer: fork over its feasible values under the path condition"""
+        if not isinstance(t, Term):
+            return t
+        k = len(s.taken)
+        if k < len(s.prefix):
+            v = s.prefix[k]
+        else:
+            if s.enum_values is None:
+                raise EngineError('concretisation requested but no solver callback installed')
+            vals = s.enum_values(s, t, 200)
+            if not vals:
+                raise PathEnd('infeasible')
+            v = vals[0]
+            for alt in vals[1:]:
+                s.pending.append(tuple(s.taken) + (alt,))
+        s.taken.append(v)
+        s.assume(mk_cmp('eq', t, v))
         return v
 
     def assume(s, c):
@@ -1161,6 +1183,8 @@ class Machine:
                 ng = imk('sub', 0, Term('to_int', (mk('neg', a),), 'I'))
                 r = mk_ite(mk_cmp('ge', a, Fraction(0)), fl, ng, 'I')
                 s.int_ranges.append((r, tt.bits, 'fptosi', s.stack[-1]))
+                if s.concretize:
+                    return s.concretize_int(r) & ((1 << tt.bits) - 1)
                 return r
             if s.mode == 'float' and (a != a or abs(a) >= 2.0 ** (tt.bits - (1 if op == 'fptosi' else 0))):
                 return UNDEF
